@@ -26,7 +26,7 @@ func c06Build(id int, raw json.RawMessage) *Job {
 	if json.Unmarshal(raw, &tc) != nil {
 		return nil
 	}
-	r := scRenderProg(tc.Items)
+	r := scRenderMode(tc.Items, scModeOf(raw, scSeed))
 	pc := &proto.Case{ID: id, Files: r.files(), Init: json.RawMessage(allOnLocal)}
 	for i, f := range r.Files {
 		pc.Steps = append(pc.Steps, openStep(f, r.Text[i]))
